@@ -1,6 +1,8 @@
 package refl
 
 import (
+	"go/token"
+	"go/constant"
 	"fmt"
 	"go/ast"
 	"go/types"
@@ -200,6 +202,8 @@ func cross(prefix string, alts []string, suffix string) []string {
 type accExpect struct {
 	has, clear, get, set, mutable, newField []string
 	clearBug                               string // the unconditional oneof clear (F9)
+	// oneof members: what Get returns when the member is held (its wrapper written %w) and when it is not
+	oneofHeld, oneofOther []string
 }
 
 func expectFor(g *model.GenPkg, f *model.Field) (accExpect, error) {
@@ -250,6 +254,7 @@ func expectFor(g *model.GenPkg, f *model.Field) (accExpect, error) {
 			MT := tq(T.(*types.Pointer).Elem())
 			z := "protoreflect.ValueOfMessage(*" + MT + "(nil).ProtoReflect())"
 			e.get = oneofGetForms(O, W, "protoreflect.ValueOfMessage(%v."+F+".ProtoReflect())", z)
+			e.oneofHeld, e.oneofOther = []string{"protoreflect.ValueOfMessage(%w." + F + ".ProtoReflect())"}, []string{z}
 			e.set = cross(O+" = &"+W+"{"+F+": ", unwrapV(k, "$2", T), "}")
 			fresh := "%t1 := new(" + MT + "); " + O + " = &" + W + "{" + F + ": %t1}; return protoreflect.ValueOfMessage(%t1.ProtoReflect())"
 			fresh2 := "%t2 := new(" + MT + "); " + O + " = &" + W + "{" + F + ": %t2}; return protoreflect.ValueOfMessage(%t2.ProtoReflect())"
@@ -260,14 +265,17 @@ func expectFor(g *model.GenPkg, f *model.Field) (accExpect, error) {
 		} else {
 			for _, z := range zeroLit(k, T) {
 				zv := wrapV(k, z)
+				e.oneofHeld = wrapAlts(k, "%w."+F)
 				if k == protoreflect.EnumKind {
 					zv = "protoreflect.ValueOfEnum(" + z + ")"
 					e.get = append(e.get, oneofGetForms(O, W, wrapV(k, "%v."+F), zv)...)
 					zv2 := "protoreflect.ValueOfEnum(protoreflect.EnumNumber(" + z + "))"
 					e.get = append(e.get, oneofGetForms(O, W, wrapV(k, "%v."+F), zv2)...)
 					e.newField = append(e.newField, "return "+zv, "return "+zv2)
+					e.oneofOther = append(e.oneofOther, zv, zv2)
 					continue
 				}
+				e.oneofOther = append(e.oneofOther, zv)
 				e.get = append(e.get, oneofGetForms(O, W, wrapV(k, "%v."+F), zv)...)
 				e.newField = append(e.newField, "return "+zv)
 			}
@@ -402,11 +410,22 @@ func RunAcc(c *core.Ctx) {
 					}
 					cn := newCanon(g.Info, fd)
 					got := cn.stmts(cc.Body)
+					alts := mt.pick(ex)
+					// a oneof member's Has/Get/Clear in another arrangement of the same tests: decided shape by shape
+					if f.Oneof != nil && (cn.err != "" || !in(got, alts)) && (mt.name == "Has" || mt.name == "Get" || mt.name == "Clear") {
+						if ok, _ := oneofArmConforms(g, fd, cc.Body, f, mt.name, ex); ok {
+							rule := "ACC." + strings.ToLower(mt.name)
+							if mt.name == "Clear" {
+								rule = "ACC.clearoneof"
+							}
+							c.Ok(rule, fcon, "conforms in every shape of the oneof (unset, each member held, each member's typed-nil wrapper), evaluated on the syntax tree", pos(c, g, cc.Pos()), src)
+							continue
+						}
+					}
 					if cn.err != "" {
 						c.Undec("ACC."+strings.ToLower(mt.name), fcon, "arm not canonicalisable: "+cn.err, pos(c, g, cc.Pos()), src)
 						continue
 					}
-					alts := mt.pick(ex)
 					if mt.name == "Clear" && f.Oneof != nil && got == ex.clearBug {
 						c.Fail("ACC.clearoneof", fcon, "Clear of a oneof member empties the oneof unconditionally: clearing a member that is not the one set destroys the member that is", pos(c, g, cc.Pos()), src)
 						continue
@@ -430,17 +449,119 @@ func fieldTag(f *model.Field) string {
 	return fmt.Sprintf("#%d(%s)", f.Desc.Number(), model.Shape(f.Desc))
 }
 
-// fdVarMap: package variable fd_X -> (message full name, field name), from the init functions
-// `fd_X = md_M.Fields().ByName("f")` with `md_M = <File>.Messages().ByName("M")…`.
+// fdVarMap: package variable fd_X -> "Msg.field" (path relative to the file's proto package), from the init functions:
+// `md_M = <File>.Messages().ByName("M")…`, `fd_X = md_M.Fields().ByName("f")`, by declaration index
+// (`.Get(i)`), or through a local that holds the list (`fields := md_M.Fields(); fd_X = fields.Get(i)`).
 func fdVarMap(g *model.GenPkg) map[types.Object]string {
 	out := map[types.Object]string{}
-	md := map[types.Object]string{} // md var -> message path "A" / "A.B"
+	md := map[types.Object]string{} // md var / local -> message path "A" / "A.B"
+	// descriptors by relative path, for index lookups
+	msgByRel := map[string]protoreflect.MessageDescriptor{}
+	for _, m := range g.Msgs {
+		rel := string(m.Desc.FullName())
+		if p := string(m.Desc.ParentFile().Package()); p != "" {
+			rel = strings.TrimPrefix(rel, p+".")
+		}
+		msgByRel[rel] = m.Desc
+	}
+	fileByVar := map[string]protoreflect.FileDescriptor{}
+	for v, fdesc := range g.FileDescs {
+		fileByVar["File"+strings.TrimSuffix(strings.TrimPrefix(v, "file"), "_rawDesc")] = fdesc
+	}
+	type listRef struct {
+		kind string // "Fields" | "Messages"
+		base string // message path, "" for the file
+		file protoreflect.FileDescriptor
+	}
+	// resolve evaluates a descriptor expression: a message path (kind "msg"), a field path (kind "field") or a list.
+	var resolve func(x ast.Expr, lists map[types.Object]listRef) (kind, path string, lr listRef, ok bool)
+	resolve = func(x ast.Expr, lists map[types.Object]listRef) (string, string, listRef, bool) {
+		x = ast.Unparen(x)
+		if id, isID := x.(*ast.Ident); isID {
+			o := g.Info.ObjectOf(id)
+			if p, has := md[o]; has {
+				return "msg", p, listRef{}, true
+			}
+			if l, has := lists[o]; has {
+				return "list", "", l, true
+			}
+			if fdesc, has := fileByVar[id.Name]; has {
+				return "file", "", listRef{file: fdesc}, true
+			}
+			return "", "", listRef{}, false
+		}
+		call, isCall := x.(*ast.CallExpr)
+		if !isCall {
+			return "", "", listRef{}, false
+		}
+		sel, isSel := call.Fun.(*ast.SelectorExpr)
+		if !isSel {
+			return "", "", listRef{}, false
+		}
+		k, p, l, ok := resolve(sel.X, lists)
+		if !ok {
+			return "", "", listRef{}, false
+		}
+		switch sel.Sel.Name {
+		case "Fields", "Messages":
+			if len(call.Args) != 0 || (k != "msg" && !(k == "file" && sel.Sel.Name == "Messages")) {
+				return "", "", listRef{}, false
+			}
+			return "list", "", listRef{kind: sel.Sel.Name, base: p, file: l.file}, true
+		case "ByName", "Get":
+			if k != "list" || len(call.Args) != 1 {
+				return "", "", listRef{}, false
+			}
+			name := ""
+			if sel.Sel.Name == "ByName" {
+				tv, has := g.Info.Types[call.Args[0]]
+				if !has || tv.Value == nil || tv.Value.Kind() != constant.String {
+					return "", "", listRef{}, false
+				}
+				name = constant.StringVal(tv.Value)
+			} else {
+				idx, isConst := constIntOf(g.Info, call.Args[0])
+				if !isConst {
+					return "", "", listRef{}, false
+				}
+				switch {
+				case l.kind == "Fields":
+					mdesc := msgByRel[l.base]
+					if mdesc == nil || idx < 0 || int(idx) >= mdesc.Fields().Len() {
+						return "", "", listRef{}, false
+					}
+					name = string(mdesc.Fields().Get(int(idx)).Name())
+				case l.base != "":
+					mdesc := msgByRel[l.base]
+					if mdesc == nil || idx < 0 || int(idx) >= mdesc.Messages().Len() {
+						return "", "", listRef{}, false
+					}
+					name = string(mdesc.Messages().Get(int(idx)).Name())
+				default:
+					if l.file == nil || idx < 0 || int(idx) >= l.file.Messages().Len() {
+						return "", "", listRef{}, false
+					}
+					name = string(l.file.Messages().Get(int(idx)).Name())
+				}
+			}
+			path := name
+			if l.base != "" {
+				path = l.base + "." + name
+			}
+			if l.kind == "Fields" {
+				return "field", path, listRef{}, true
+			}
+			return "msg", path, listRef{}, true
+		}
+		return "", "", listRef{}, false
+	}
 	for _, file := range g.Files {
 		for _, d := range file.Decls {
 			fd, ok := d.(*ast.FuncDecl)
 			if !ok || fd.Name.Name != "init" || fd.Recv != nil || fd.Body == nil {
 				continue
 			}
+			lists := map[types.Object]listRef{}
 			for _, s := range fd.Body.List {
 				as, ok := s.(*ast.AssignStmt)
 				if !ok || len(as.Lhs) != 1 || len(as.Rhs) != 1 {
@@ -451,61 +572,33 @@ func fdVarMap(g *model.GenPkg) map[types.Object]string {
 					continue
 				}
 				o := g.Info.ObjectOf(id)
-				// chain of .Messages().ByName("X") / .Fields().ByName("f")
-				var names []string
-				kind := ""
-				x := as.Rhs[0]
-				base := ""
-				for {
-					call, ok := x.(*ast.CallExpr)
-					if !ok {
-						break
-					}
-					sel, ok := call.Fun.(*ast.SelectorExpr)
-					if !ok || sel.Sel.Name != "ByName" || len(call.Args) != 1 {
-						break
-					}
-					bl, ok := call.Args[0].(*ast.BasicLit)
-					if !ok {
-						break
-					}
-					nm, _ := strconv.Unquote(bl.Value)
-					inner, ok := sel.X.(*ast.CallExpr)
-					if !ok {
-						break
-					}
-					isel, ok := inner.Fun.(*ast.SelectorExpr)
-					if !ok {
-						break
-					}
-					if kind == "" {
-						kind = isel.Sel.Name
-					}
-					names = append([]string{nm}, names...)
-					x = isel.X
-					if bid, ok := x.(*ast.Ident); ok {
-						if p, ok := md[g.Info.ObjectOf(bid)]; ok {
-							base = p
-						}
-						break
-					}
-				}
-				if len(names) == 0 {
+				k, p, l, ok := resolve(as.Rhs[0], lists)
+				if !ok {
+					delete(lists, o)
 					continue
 				}
-				path := strings.Join(names, ".")
-				if base != "" {
-					path = base + "." + path
-				}
-				if kind == "Fields" {
-					out[o] = path // "A.enum" relative to the file package
-				} else {
-					md[o] = path
+				switch k {
+				case "field":
+					out[o] = p
+				case "msg":
+					md[o] = p
+				case "list":
+					if as.Tok == token.DEFINE || lists[o] != (listRef{}) {
+						lists[o] = l
+					}
 				}
 			}
 		}
 	}
 	return out
+}
+
+func constIntOf(info *types.Info, x ast.Expr) (int64, bool) {
+	tv, ok := info.Types[x]
+	if !ok || tv.Value == nil || tv.Value.Kind() != constant.Int {
+		return 0, false
+	}
+	return constant.Int64Val(tv.Value)
 }
 
 // runRange checks Range: one block per non-oneof field guarded by its presence predicate,
@@ -612,6 +705,10 @@ func runRange(c *core.Ctx, g *model.GenPkg, m *model.Msg, fdVars map[types.Objec
 		want := "if (" + O + " != nil) {typeswitch %w := " + O + ".(type) {" + strings.Join(armsS, " | ") + "}}"
 		if _, ok := take([]string{want}); ok {
 			c.Ok("ACC.range", con, "the set member (and only it) is visited with its own descriptor", pos(c, g, fd.Pos()), src)
+		} else if bi := rangeOneofBlock(g, fd, o, used, varFor); bi >= 0 {
+			// another arrangement of the same tests: decided shape by shape
+			used[bi] = true
+			c.Ok("ACC.range", con, "the member held (and only it, and not through a nil wrapper) is handed to the callback with its own descriptor, a false answer returns — in every shape of the oneof, evaluated on the syntax tree", pos(c, g, fd.Pos()), src)
 		} else {
 			near := ""
 			for i, b := range blocks {
@@ -691,6 +788,12 @@ func runWhichOneof(c *core.Ctx, g *model.GenPkg, m *model.Msg, fdVars map[types.
 		}
 		sortArms(as)
 		want := "if (" + O + " == nil) {return nil}; typeswitch %w := " + O + ".(type) {" + strings.Join(as, " | ") + "}"
+		if !(got == want && cn.err == "") {
+			if ok, _ := whichOneofConforms(g, fd, sw, cc, m, o, fdVars); ok {
+				c.Ok("ACC.whichoneof", con, "nil when unset or when the wrapper held is a nil pointer, else the descriptor of the member held — in every shape of the oneof, evaluated on the syntax tree", pos(c, g, cc.Pos()), src)
+				continue
+			}
+		}
 		c.Check(got == want && cn.err == "", "ACC.whichoneof", con, "nil when unset, else the descriptor of the member whose wrapper is held", fmt.Sprintf("arm does: %s ; expected: %s", clip(got, 400), clip(want, 400)), pos(c, g, cc.Pos()), src)
 	}
 }
